@@ -399,7 +399,9 @@ sts_n_aux(Source *source, Sink *sink, ByteBuffer *b, const size_t n)
     size_t rest = n;
 
     while (rest > 0) {
-        byte_buffer_rewind(b);
+        /* Every step works on the window the caller designated, through a
+         * copy of its descriptor: Neither the descriptor nor memory outside
+         * the window is the plumbing's to change. */
         const ssize_t rc = sts_atmost_aux(source, sink, b, rest);
         if (rc == -EINTR || rc == -EAGAIN) {
             continue;
@@ -419,7 +421,6 @@ sts_drain_aux(Source *source, Sink *sink, ByteBuffer *b)
     ssize_t rc = 0;
 
     for (;;) {
-        byte_buffer_rewind(b);
         rc = sts_atmost_aux(source, sink, b, n);
         if (rc == -EINTR || rc == -EAGAIN) {
             continue;
